@@ -167,6 +167,15 @@ Example judge_model_hop_sig : judge (model_case ex_world ex_ident ex_hop_sig [])
 Proof. vm_compute. reflexivity. Qed.
 Example judge_model_cl0 : judge (model_case ex_world ex_ident ex_cl0 []) = 102.
 Proof. vm_compute. reflexivity. Qed.
+(* two signatures at once are attributed to the smallest explaining finding; a harmless K1 shape does not
+   steal the attribution from K2; a harmless K1 shape alone is no finding at all *)
+Example judge_model_both : judge (model_case ex_world ex_ident ex_both []) = 101.
+Proof. vm_compute. reflexivity. Qed.
+Example judge_model_harmless_k1_k2 : judge (model_case ex_world ex_ident ex_harmless_k1_k2 []) = 102.
+Proof. vm_compute. reflexivity. Qed.
+Example judge_model_harmless_k1 :
+  judge (model_case ex_world ex_ident (mk_req s_get [(connection, [content_md5])] s_k1 [] (Some [])) []) = 0.
+Proof. vm_compute. reflexivity. Qed.
 Example judge_model_k3 : judge (model_case ex_world_k3 ex_ident ex_post ex_parsed) = 0.
 Proof. vm_compute. reflexivity. Qed.
 Example judge_cfg : judge (CCfg ex_world false) = 0 /\ judge (CCfg ex_world_k3 false) = 0.
